@@ -1843,7 +1843,7 @@ func lockOrderEdges(p *Program, pkgs map[string]bool) []lockEdge {
 					// a lock whose release is deferred inside a loop of this function stays held
 					// into the next turn: there it belongs to another object of the same class
 					// (the locks of each database in turn), which a class-level order cannot judge
-					if deferredUnlockInLoop(fn, h.k.field) {
+					if h.loopDeferred || la.loopDeferredThroughWrapper(fn, h.k, 0) {
 						continue
 					}
 					out = append(out, lockEdge{h.k, op.key, fn, c.Pos(), h.how})
@@ -1894,7 +1894,28 @@ func ruleLORDER(p *Program, r *Reporter) {
 	r.Count(id, 1)
 }
 
-func deferredUnlockInLoop(fn *ssa.Function, lock *types.Var) bool {
+// loopDeferredThroughWrapper: fn defers the release of k inside a loop, or fn is an
+// acquire wrapper for k (returns holding it) and every caller does.
+func (la *lockAnalysis) loopDeferredThroughWrapper(fn *ssa.Function, k lockKey, depth int) bool {
+	if la.deferredUnlockInLoop(fn, k.field) {
+		return true
+	}
+	if depth > 3 || la.summaries[fn][k] <= 0 {
+		return false
+	}
+	sites := getCallIndex(la.p).sites[fn]
+	if len(sites) == 0 {
+		return false
+	}
+	for _, s := range sites {
+		if !la.loopDeferredThroughWrapper(s.caller, k, depth+1) {
+			return false
+		}
+	}
+	return true
+}
+
+func (la *lockAnalysis) deferredUnlockInLoop(fn *ssa.Function, lock *types.Var) bool {
 	for _, b := range fn.Blocks {
 		if loopHeaderOf(b) == nil {
 			continue
@@ -1906,6 +1927,12 @@ func deferredUnlockInLoop(fn *ssa.Function, lock *types.Var) bool {
 			}
 			if op, isLock, cls := lockOpOf(d.Common()); isLock && cls && !op.acquire && op.key.field == lock {
 				return true
+			}
+			// a deferred release helper (defer unlock(), unlock returned by a lock helper)
+			for k, d := range la.calleeSummary(d.Common()) {
+				if k.field == lock && d < 0 {
+					return true
+				}
 			}
 		}
 	}
